@@ -95,8 +95,15 @@ def run(res, rng, tier, model_ok, replay=None):
         if not idl or idl in ("PANIC", "CRASH-OR-HANG"):
             res.notes.append("could not enumerate signals of " + f)
             continue
-        ids = [int(x) for x in idl.split(",")]
+        idpart, _, grp = idl.partition("|")
+        ids = [int(x) for x in idpart.split(",")]
         pick = ids if len(ids) <= 12 else rng.sample(ids, 12)
+        # signals that are sub-ranges of one parent must be requested together, next to each other and with their parent
+        groups = [g for g in grp.split(";") if g]
+        for g in rng.sample(groups, min(3, len(groups))):
+            par, als = g.split(">")
+            als = [int(x) for x in als.split(".")]
+            pick = sorted(set(pick + [int(par)] + als[:4]))
         single = core.run_cases(core.WV_DEBUG, ["loadseqf %s L:%d" % (f, i) for i in pick], "c07s")
         content = {}
         for i, o in zip(pick, single):
